@@ -74,6 +74,29 @@ def run(chk, repo):
                          f"(it leaves open_image as {cname}): default open_alos2 fails until the cache file is deleted",
                          key=f"{fi.key}:json.loads:fate")
 
+    # X4: an empty or cut index text must not trip anything before json.loads sees it
+    chk.rule("C09-X4", "the raw index text is not indexed (text[0], text[-1], ...) outside the error translation: an empty file raises IndexError there", 1)
+    n_txt = 0
+    for fi, call in sites:
+        flow = Flow(fi)
+        text_names = set()
+        if call.args:
+            for x in ast.walk(call.args[0]):
+                if isinstance(x, ast.Name):
+                    text_names.add(x.id)
+        text_names = {t for t in text_names if t in fi.params or t in fi.local_bindings()}
+        n_txt += 1
+        subs = [n for n in fi.own_nodes() if isinstance(n, ast.Subscript) and isinstance(n.ctx, ast.Load) and isinstance(n.value, ast.Name) and n.value.id in text_names and not isinstance(n.slice, ast.Slice)]
+        bad_subs = []
+        for sub in subs:
+            for chain in chains_to(op, OPEN_IMAGE, fi, sub) or [[(fi, sub)]]:
+                fate = exception_fate(op, chain, "IndexError")
+                if not (fate[0] == "handled" and fate[1].key == OPEN_IMAGE):
+                    bad_subs.append(short(sub, 30))
+        chk.require(not bad_subs, "C09-X4", op.where(fi), f"the index text `{', '.join(sorted(text_names))}` is handed to json.loads without being indexed outside the error translation",
+                    f"`{bad_subs[0] if bad_subs else ''}` indexes the raw index text: for a 0-byte file (crash right after the file was created / truncated) it raises IndexError, which is not the "
+                    f"CachingError open_image falls back on - every later default open fails until the file is deleted", key=f"{fi.key}:text-indexed")
+
     # X2
     guards = []
     for w in writes:
